@@ -158,7 +158,7 @@ class Models(object):
         R('DashMap::len', self.dm_len)
         R('DashMap::is_empty', self.dm_is_empty)
         R('DashMap::iter', self.dm_iter)
-        R('Ref::value|RefMulti::value', self.dmref_value)
+        R('Ref::value|RefMulti::value|<RefMulti as Deref>::deref|<Ref as Deref>::deref', self.dmref_value)
         # --- segqueue
         R('SegQueue::new', lambda ex, fr, c, a, st, pc: (FifoV(), S.TRUE))
         R('SegQueue::push', self.sq_push)
@@ -198,6 +198,18 @@ class Models(object):
             by = tuple(S.Extract(127 - 8 * i, 120 - 8 * i, u) for i in range(16))
             return RefV(ex.alloc(st, by, 'uuidbytes'), ()), S.TRUE
         R('Uuid::as_bytes', uuid_as_bytes)
+
+        def ulid_to_bytes(ex, fr, c, a, st, pc):
+            u = a[0]
+            while isinstance(u, RefV):
+                u = self.rd(st, u)
+            if isinstance(u, tuple) and len(u) == 1:
+                u = u[0]
+            if not isinstance(u, S.Term) or u.sort != 128:
+                raise Unsupported('Ulid::to_bytes on %r' % (u,))
+            return tuple(S.Extract(127 - 8 * i, 120 - 8 * i, u) for i in range(16)), S.TRUE
+        R('Ulid::to_bytes|Uuid::into_bytes|Uuid::to_bytes_le', ulid_to_bytes)
+        R('Uuid::as_u128|Ulid::0', lambda ex, fr, c, a, st, pc: (self._deep(st, a[0]), S.TRUE))
 
         def from_be(ex, fr, c, a, st, pc):
             by = a[0]
